@@ -13,17 +13,28 @@
 (* output j its own Iterator: closer.state, Producer.WithCancel context made *)
 (*          from the context of its first advance (producer.go:367-377);     *)
 (*          Close before any advance is a no-op on it.                       *)
-(* consumer j reads / closes output j.                                       *)
+(* consumer j reads / closes output j UNDER ITS OWN CONTEXT p[j] ("each of   *)
+(*          which can be safely used from a different go routine"): Cancel   *)
+(*          takes one consumer's context, or all of them (a shared parent).  *)
+(*          The reader dies with the context of the output that started it - *)
+(*          by that consumer's cancellation or by Close of that output - and *)
+(*          its PostHook closes the pipe on EVERY way out, which is what     *)
+(*          gives the siblings their io.EOF (NoDeadlock).                    *)
 (*                                                                           *)
 (* OnceSetup = FALSE is the seeded mutation "drop .Once() on the lazy        *)
 (* setup": every advance starts another reader.                              *)
+(* CloseOn = "eof" is the mutation "the pipe is closed when (and only when)  *)
+(* the input reports io.EOF" instead of by a PostHook of the reader: a       *)
+(* reader that ends with its context leaves the pipe open (self-test of      *)
+(* NoDeadlock).                                                              *)
 (***************************************************************************)
 EXTENDS Integers, Sequences, FiniteSets, Bags, BagsExt, TLC
 
 CONSTANTS MaxN,       \* input sizes 0..MaxN
           M,          \* number of outputs
           MaxR,       \* number of reader slots (1 suffices with OnceSetup)
-          OnceSetup   \* TRUE (the code) | FALSE (mutation)
+          OnceSetup,  \* TRUE (the code) | FALSE (mutation)
+          CloseOn     \* "exit" (the code: PostHook of the reader) | "eof" (mutation: only when the input is exhausted)
 
 None == 0
 Outs == 1..M
@@ -54,13 +65,13 @@ Init == /\ n \in 0..MaxN /\ src = Input
         /\ setup = "new" /\ nsetup = 0 /\ pipeClosed = FALSE
         /\ octx = [j \in Outs |-> "none"] /\ odone = [j \in Outs |-> FALSE] /\ oclosed = [j \in Outs |-> FALSE]
         /\ upc = [j \in Outs |-> "idle"] /\ got = [j \in Outs |-> <<>>] /\ ueof = [j \in Outs |-> FALSE]
-        /\ pdone = FALSE /\ stopped = FALSE
+        /\ pdone = [j \in Outs |-> FALSE] /\ stopped = FALSE
 
 (* ---------------------------------------------------------------- External *)
 
 \* consumer j: ReadOne on output j (iterator.go:231-258; PreHook(setup) runs on every call)
 Read(j) == /\ upc[j] = "idle"
-           /\ IF oclosed[j] \/ pdone
+           /\ IF oclosed[j] \/ pdone[j]
                 THEN /\ ueof' = [ueof EXCEPT ![j] = TRUE]
                      /\ UNCHANGED <<upc, octx, setup, nsetup, rpc, rctx>>
                 ELSE /\ upc' = [upc EXCEPT ![j] = "recv"] /\ UNCHANGED ueof
@@ -82,20 +93,25 @@ Close(j) == /\ IF oclosed[j] THEN UNCHANGED <<oclosed, octx, odone>>
             /\ stopped' = TRUE
             /\ UNCHANGED <<n, src, rpc, rhold, rctx, setup, nsetup, pipeClosed, upc, got, ueof, pdone>>
 
-\* the context the consumers pass to their advances is cancelled
-Cancel == /\ ~pdone /\ pdone' = TRUE /\ stopped' = TRUE
-          /\ odone' = [j \in Outs |-> odone[j] \/ octx[j] = "live"]
-          /\ UNCHANGED <<n, src, rpc, rhold, rctx, setup, nsetup, pipeClosed, octx, oclosed, upc, got, ueof>>
+\* the contexts the consumers of S pass to their advances are cancelled: one consumer's own context, or
+\* all of them at once (the consumers share a parent context)
+Cancel(S) == /\ \E j \in S : ~pdone[j]
+             /\ pdone' = [j \in Outs |-> pdone[j] \/ j \in S] /\ stopped' = TRUE
+             /\ odone' = [j \in Outs |-> odone[j] \/ (j \in S /\ octx[j] = "live")]
+             /\ UNCHANGED <<n, src, rpc, rhold, rctx, setup, nsetup, pipeClosed, octx, oclosed, upc, got, ueof>>
 
-External == Cancel \/ \E j \in Outs : Read(j) \/ Close(j)
+External == Cancel(Outs) \/ \E j \in Outs : Read(j) \/ Close(j) \/ Cancel({j})
 
 (* ---------------------------------------------------------------- Internal *)
 
 RDone(r) == odone[rctx[r]]
 
+\* where the reader goes when it ends with its context (the end of the input always closes the pipe)
+CtxExit == IF CloseOn = "exit" THEN "close" ELSE "done"
+
 RRead(r) == /\ rpc[r] = "read"
             /\ IF RDone(r) \/ src = <<>>
-                 THEN rpc' = [rpc EXCEPT ![r] = "close"] /\ UNCHANGED <<src, rhold>>
+                 THEN rpc' = [rpc EXCEPT ![r] = IF RDone(r) THEN CtxExit ELSE "close"] /\ UNCHANGED <<src, rhold>>
                  ELSE /\ rpc' = [rpc EXCEPT ![r] = "send"]
                       /\ rhold' = [rhold EXCEPT ![r] = Head(src)] /\ src' = Tail(src)
             /\ UNCHANGED <<n, rctx, setup, nsetup, pipeClosed, octx, odone, oclosed, upc, got, ueof, pdone, stopped>>
@@ -108,7 +124,7 @@ PipeHandoff(r, j) == /\ rpc[r] = "send" /\ upc[j] = "recv" /\ ~pipeClosed
 
 \* the send ends without delivering: ctx.Done() arm, or send on the closed pipe (recovered panic): item dropped
 RSendEnd(r) == /\ rpc[r] = "send" /\ (RDone(r) \/ pipeClosed)
-               /\ rhold' = [rhold EXCEPT ![r] = None] /\ rpc' = [rpc EXCEPT ![r] = "close"]
+               /\ rhold' = [rhold EXCEPT ![r] = None] /\ rpc' = [rpc EXCEPT ![r] = CtxExit]
                /\ UNCHANGED <<n, src, rctx, setup, nsetup, pipeClosed, octx, odone, oclosed, upc, got, ueof, pdone, stopped>>
 
 RClose(r) == /\ rpc[r] = "close"
@@ -146,11 +162,17 @@ NoStall      == (Quiescent /\ ~stopped) => \A j \in Outs : upc[j] = "idle"
 
 \* C04, with the reading of DESIGN.md 5.0: the obligation starts when every output is closed, or the
 \* context of the first advance is cancelled, or the input is exhausted and drained
+\* - where "the context of the first advance is cancelled" is the reader's view: the context of the output
+\* whose advance started it is done, by that consumer's cancellation or by Close of that output
 SplitStopped == \/ \A j \in Outs : oclosed[j]
-                \/ pdone /\ \E j \in Outs : octx[j] = "live"
+                \/ \A r \in Readers : rpc[r] # "idle" => odone[rctx[r]]
                 \/ src = <<>> /\ \A r \in Readers : rhold[r] = None
 AllDone == (Quiescent /\ SplitStopped) => \A r \in Readers : rpc[r] \in {"idle", "done"}
-BlockedConsumerReleased == Quiescent => \A j \in Outs : (oclosed[j] \/ pdone) => upc[j] = "idle"
+BlockedConsumerReleased == Quiescent => \A j \in Outs : (oclosed[j] \/ pdone[j]) => upc[j] = "idle"
+\* C04 "a finite input always leads to io.EOF (no deadlock)": whatever the siblings did - closed their
+\* outputs, cancelled their contexts, went away - no consumer is left blocked once the library has settled:
+\* the source never blocks, so an advance ends with an item or with the end of the output
+NoDeadlock == Quiescent => \A j \in Outs : upc[j] = "idle"
 NoopCloseStartsNothing == (\A j \in Outs : octx[j] \in {"none", "noop"}) => \A r \in Readers : rpc[r] = "idle"
 
 \* NOT a property of the code (and not judged, DESIGN.md 5.0): closing some outputs while abandoning the
